@@ -392,6 +392,8 @@ func (g *Gen) convert(st *State, x *ssa.Convert) {
 		name := "E:uint8"
 		h := g.heapGet(st, name, cs)
 		g.heapSet(st, name, cs, Store(h, r, App("vp_strbytes", ArraySort(SInt, SInt), v.T)))
+		// converting back gives the same string
+		g.assume(Eq(App("vp_bytesstr", SStr, App("vp_strbytes", ArraySort(SInt, SInt), v.T), IntLit(0), n), v.T))
 		sv := Val{K: VSlice, Ty: to, F: []Val{scalar(r, nil), scalar(IntLit(0), nil), scalar(n, nil), scalar(n, nil)}}
 		g.bind(st, x, sv)
 	case isByteSlice(from) && isStringType(to):
